@@ -34,11 +34,23 @@ def cases(tier, rng, dist):
 
 
 def run(c):
-    r = guarded(lambda: hypergeom_conf_interval(c["n"], c["x"], c["N"], cl=float(Fraction(c["cl"])), alternative=c["alt"], G=c["G"]))
+    # the counts in the form the caller holds them (ints, NumPy integer scalars, writable 0-d arrays); the same objects are
+    # passed to a second, identical call
+    form = (c["n"] + c["x"] + c["N"] + len(c["alt"])) % 3
+    mk = [int, np.int64, lambda v: np.array(v)][form]
+    n, x, N = mk(c["n"]), mk(c["x"]), mk(c["N"])
+    # the documented starting point G: None, a Python int, or (every other case) a writable 0-d int64 array the caller reuses
+    Gobj = c["G"] if (c["G"] is None or (c["n"] + c["x"]) % 2 == 0) else np.array(c["G"], dtype=np.int64)
+    call = lambda: hypergeom_conf_interval(n, x, N, cl=float(Fraction(c["cl"])), alternative=c["alt"], G=Gobj)
+    r = guarded(call)
+    after = [int(n), int(x), int(N)] + ([int(Gobj)] if Gobj is not None else [])
     if r[0] != "ok":
-        return {"r": list(r)}
+        return {"r": list(r), "after": after}
     lo, hi = r[1]
-    return {"r": ["ok", lo, hi], "types": [type(lo).__name__, type(hi).__name__]}
+    r2 = guarded(call)
+    again = [int(v) for v in r2[1]] if r2[0] == "ok" else list(r2)[:2]
+    return {"r": ["ok", int(lo) if float(lo).is_integer() else lo, int(hi) if float(hi).is_integer() else hi], "types": [type(lo).__name__, type(hi).__name__],
+            "after": after, "again": again, "form": form}
 
 
 def tail(N, G, n, x):
@@ -74,10 +86,16 @@ def oracle(c, o):
     r = o["r"]
     if r[0] != "ok":
         return {"why": f"hypergeom_conf_interval({c['n']}, {c['x']}, {c['N']}, cl={c['cl']}, {c['alt']}, G={c['G']}) raised {r}", "cls": "hypergeom_conf_interval:raises"}
+    want_after = [c["n"], c["x"], c["N"]] + ([c["G"]] if c["G"] is not None else [])
+    if o.get("after") is not None and o["after"] != want_after:
+        return {"why": f"hypergeom_conf_interval changed the caller's argument objects (n, x, N[, G]) = {want_after} to {o['after']}", "cls": "hypergeom_conf_interval:input-modified"}
+    if "again" in o and o["again"] != [r[1], r[2]]:
+        return {"why": f"hypergeom_conf_interval(n={c['n']}, x={c['x']}, N={c['N']}, cl={c['cl']}, {c['alt']}) returned {(r[1], r[2])}, a second call with the same argument objects {o['again']}", "cls": "hypergeom_conf_interval:limits"}
     lo, hi, tie, ts, a = exact(c)
     if tie:
         return None
-    if not all(isinstance(v, (int, np.integer)) for v in r[1:3]) or any(t not in ("int", "int64", "int32") for t in o["types"]):
+    ok_types = ("int", "int64", "int32") + (("ndarray",) if o.get("form") == 2 else ())     # 0-d integer arrays in, 0-d integer arrays may come out
+    if not all(isinstance(v, (int, np.integer)) for v in r[1:3]) or any(t not in ok_types for t in o["types"]):
         return {"why": f"limits are not integers: {r[1:3]} ({o['types']})", "cls": "hypergeom_conf_interval:not-integer"}
     if (r[1], r[2]) != (lo, hi):
         return {"why": f"hypergeom_conf_interval(n={c['n']}, x={c['x']}, N={c['N']}, cl={c['cl']}, {c['alt']}, G={c['G']}) = {(r[1], r[2])}, exact test inversion gives {(lo, hi)}", "cls": "hypergeom_conf_interval:limits"}
